@@ -34,6 +34,7 @@ def run(ctx):
                 "longer random chains; non-trivial = chain with >= 2 calls")
     thorough = ctx.tier == "thorough"
     core.law_runs(ctx, "Law_Xform", ["Law_Xform_P"])
+    core.law_runs(ctx, "Law_XformS", ["Law_XformS"])      # the same laws as polynomial identities on free symbols
     L = 4 if thorough else 3
     chains = os.path.join(ctx.work, "chains.txt")
     with open(chains, "w") as out:
